@@ -69,11 +69,15 @@ CURRENT = "self._get_current_status()"
 
 
 # ------------------------------------------------------------------------------ disqualifying facts
-# A fact is bound to code by *what the atomic condition computes* on the (canonically named) message
-# MSG, never by the name of a local: matcher(atom) -> the truth value of that atom under which the
-# disqualifying fact holds, or None when the atom is not a test of this fact.
+# The message a handler works on is, after the executor has run the handlers in line, the expression
+# `SELECTED.message` of the select loop.  A fact is bound to code by *what the atomic condition computes* on
+# that message, never by the name of a local, a parameter or a helper: matcher(atom) -> the truth value of
+# that atom under which the disqualifying fact holds, or None when the atom is not a test of this fact.
+MSG = "SELECTED.message"
+
+
 def _fact_nan(a: Atom) -> bool | None:
-    if a.kind == "truthy" and text(a.ops[0]) in ("math.isnan(MSG.capacity)", "isnan(MSG.capacity)"):
+    if a.kind == "truthy" and text(a.ops[0]) in (f"math.isnan({MSG}.capacity)", f"isnan({MSG}.capacity)"):
         return True
     return None
 
@@ -83,7 +87,7 @@ def _is_critical_filter(gen: ast.AST) -> bool:
     if not isinstance(gen, (ast.GeneratorExp, ast.ListComp)) or len(gen.generators) != 1:
         return False
     g = gen.generators[0]
-    if not isinstance(g.target, ast.Name) or text(g.iter) != "MSG.errors" or len(g.ifs) != 1 or g.is_async:
+    if not isinstance(g.target, ast.Name) or text(g.iter) != f"{MSG}.errors" or len(g.ifs) != 1 or g.is_async:
         return False
     v = g.target.id
     return text(gen.elt) == v and _is_critical_test(g.ifs[0], v)
@@ -108,7 +112,7 @@ def _fact_critical(a: Atom) -> bool | None:
         gen = a.ops[0].args[0]  # any(e.level == CRITICAL for e in MSG.errors)
         if isinstance(gen, (ast.GeneratorExp, ast.ListComp)) and len(gen.generators) == 1:
             g = gen.generators[0]
-            if isinstance(g.target, ast.Name) and text(g.iter) == "MSG.errors" and not g.ifs \
+            if isinstance(g.target, ast.Name) and text(g.iter) == f"{MSG}.errors" and not g.ifs \
                     and _is_critical_test(gen.elt, g.target.id):
                 return True
     return None
@@ -118,39 +122,33 @@ def _fact_not_in(attr: str, table: str) -> Callable[[Atom], bool | None]:
     owners = ("BatteryStatusTracker", "self", "type(self)", "self.__class__", "cls")
 
     def match(a: Atom) -> bool | None:
-        if a.kind == "in" and text(a.ops[0]) == f"MSG.{attr}" and text(a.ops[1]) in {f"{o}.{table}" for o in owners}:
+        if a.kind == "in" and text(a.ops[0]) == f"{MSG}.{attr}" and text(a.ops[1]) in {f"{o}.{table}" for o in owners}:
             return False  # the fact holds when `state in valid` is false
         return None
     return match
 
 
 def _fact_stale(a: Atom) -> bool | None:
-    if a.kind == "truthy" and text(a.ops[0]) == "self._is_timestamp_outdated(MSG.timestamp)":
-        return True
-    if a.key == lt_key("self._max_data_age", "NOW - MSG.timestamp"):
+    if a.key == lt_key("self._max_data_age", f"NOW - {MSG}.timestamp"):
         return True
     return None
 
 
-# frozen instance table: predicate -> disqualifying facts it must exclude — a vanished atom is exit 2
-# (third column: the message field the fact is about — a condition on that field which is not a test of the
-#  fact in a recognised form is reported as a violation; no condition on the field at all is exit 2)
+# frozen instance table: stream -> the disqualifying facts a message of that stream must be cleared of before the
+# stream's flag may become true (label, matcher, the message field the fact is about)
 FACTS: dict[str, list[tuple[str, Callable[[Atom], bool | None], str]]] = {
-    "_is_capacity_present": [("NaN capacity", _fact_nan, "MSG.capacity")],
-    "_no_critical_error": [("critical error", _fact_critical, "MSG.errors")],
-    "_is_inverter_state_correct": [("invalid inverter state", _fact_not_in("component_state", "_inverter_valid_state"),
-                                    "MSG.component_state")],
-    "_is_battery_state_correct": [
-        ("invalid battery state", _fact_not_in("component_state", "_battery_valid_state"), "MSG.component_state"),
-        ("invalid relay state", _fact_not_in("relay_state", "_battery_valid_relay"), "MSG.relay_state")],
-    "_is_message_reliable": [("stale message", _fact_stale, "MSG.timestamp")],
+    "self._battery": [
+        ("stale message", _fact_stale, "timestamp"),
+        ("invalid battery state", _fact_not_in("component_state", "_battery_valid_state"), "component_state"),
+        ("invalid relay state", _fact_not_in("relay_state", "_battery_valid_relay"), "relay_state"),
+        ("critical error", _fact_critical, "errors"),
+        ("NaN capacity", _fact_nan, "capacity")],
+    "self._inverter": [
+        ("stale message", _fact_stale, "timestamp"),
+        ("invalid inverter state", _fact_not_in("component_state", "_inverter_valid_state"), "component_state"),
+        ("critical error", _fact_critical, "errors")],
 }
-REQUIRED = {
-    "_handle_status_battery": ("self._battery", {"_is_message_reliable", "_is_battery_state_correct",
-                                                 "_no_critical_error", "_is_capacity_present"}),
-    "_handle_status_inverter": ("self._inverter", {"_is_message_reliable", "_is_inverter_state_correct",
-                                                   "_no_critical_error"}),
-}
+STREAMS = ("self._battery", "self._inverter")
 VALID_SETS = {
     "_battery_valid_relay": {"BatteryRelayState.CLOSED"},
     "_battery_valid_state": {"BatteryComponentState.IDLE", "BatteryComponentState.CHARGING",
@@ -177,118 +175,12 @@ def ret_text(p: PathSum) -> str:
     return "None" if p.value is None else text(p.value)
 
 
-def falsy_ret(p: PathSum) -> bool:
-    return p.const() in (False, None)
-
-
 def first(items: list[Any]) -> Any:
     return items[0] if items else None
 
 
 def wit(p: PathSum | None) -> list[str]:
     return p.describe() if p is not None else []
-
-
-def check_safe(run: Run, prog: Program) -> None:  # noqa: C901
-    cls = prog.cls(TR)
-    # frozen sets of operational states
-    for name, want in VALID_SETS.items():
-        node = cls.class_assigns.get(name)
-        got = {u(e) for e in node.elts} if isinstance(node, ast.Set) else None
-        run.check(got == want, "C16.SAFE", cls.qual, f"{name} = {sorted(got) if got else got}",
-                  f"the set of states counted as operational changed from the documented {sorted(want)} "
-                  f"to {sorted(got) if got else got}", node=node or cls.node, file=cls.module.rel)
-    # each predicate: returning a value that is not False requires every disqualifying fact of the
-    # predicate to have been tested on that path with the outcome "fact does not hold"
-    for pname, facts in FACTS.items():
-        fn = prog.func(f"{TR}.{pname}")
-        run.analysed(fn.qual)
-        paths = paths_of(prog, fn, ["MSG"], mode="bool")
-        for label, match, field in facts:
-            def holds(p: PathSum, match: Callable[[Atom], bool | None] = match) -> bool | None:
-                """True: fact holds on p; False: excluded on p; None: not tested on p."""
-                got = [v == match(a) for a, v in p.atoms_where(lambda a: match(a) is not None)]
-                return None if not got else any(got)
-            if all(holds(p) is None for p in paths):
-                near = [a for p in paths for a, _v in p.atoms_where(
-                    lambda a, field=field: field in " ".join(text(o) for o in a.ops))]
-                if not near:
-                    raise AnalysisError(f"{fn.qual}: the test of the disqualifying fact `{label}` vanished")
-                run.check(False, "C16.SAFE", fn.qual, f"{label} -> False",
-                          f"the condition on {field} reads `{near[0].show()}`: it does not decide the disqualifying "
-                          f"fact `{label}`, so `{pname}` can return True while the fact holds",
-                          node=fn.node, file=fn.file, instance=f"{fn.qual}: {label} => False on every path")
-                continue
-            bad = first([p for p in paths if not falsy_ret(p) and holds(p) is not False])
-            run.check(bad is None, "C16.SAFE", fn.qual, f"{label} -> False",
-                      f"with the disqualifying fact `{label}` true (or untested), `{pname}` can still return a "
-                      "value that is not False: the component is reported healthy on that path",
-                      node=fn.node, file=fn.file, path=wit(bad),
-                      instance=f"{fn.qual}: {label} => False on every path")
-        # and the predicate can succeed at all (not constantly False)
-        run.check(any(not falsy_ret(p) for p in paths), "C16.SAFE", fn.qual,
-                  "predicate can hold", "the predicate can never hold", node=fn.node, file=fn.file)
-    # staleness predicate: True exactly when max_data_age < now - timestamp
-    so = prog.func(f"{TR}._is_timestamp_outdated")
-    run.analysed(so.qual)
-    paths = paths_of(prog, so, ["TS"], mode="bool")
-    k_old = lt_key("self._max_data_age", "NOW - TS")
-    ok = all(p.fact(k_old) is not None and p.const() is p.fact(k_old) for p in paths) and \
-        {p.fact(k_old) for p in paths} == {True, False}
-    run.check(ok, "C16.SAFE", so.qual, "outdated == now - timestamp > max_data_age",
-              "staleness is not `now - message timestamp > max_data_age`", node=so.node, file=so.file,
-              path=wit(first([p for p in paths if p.fact(k_old) is None or p.const() is not p.fact(k_old)])))
-    # the flag written by a message handler is true only if every required predicate held on the message
-    for hname, (stream, need) in REQUIRED.items():
-        fn = prog.func(f"{TR}.{hname}")
-        run.analysed(fn.qual)
-        paths = paths_of(prog, fn, ["MSG"])
-        missing: set[str] = set()
-        bad = None
-        for p in paths:
-            w = p.last_write(f"{stream}.{FLAG}")
-            if w is None:
-                bad = bad or p
-                missing.add("<flag not written>")
-                continue
-            if isinstance(w, ast.Constant) and w.value is False:
-                continue
-            lack = {q for q in need if p.fact(truthy_key(f"self.{q}(MSG)")) is not True}
-            if lack:
-                bad = bad or p
-                missing |= lack
-        can_hold = any(isinstance(p.last_write(f"{stream}.{FLAG}"), ast.Constant)
-                       and p.last_write(f"{stream}.{FLAG}").value is True for p in paths)  # type: ignore[union-attr]
-        run.check(bad is None and can_hold, "C16.SAFE", fn.qual, f"{stream}.last_msg_correct = and(all predicates)",
-                  f"the health flag of {stream} is not the conjunction of all required checks on the "
-                  f"received message (missing: {sorted(missing)})", node=fn.node, file=fn.file, path=wit(bad))
-    # status decision: anything but NOT_WORKING needs both flags
-    gs = prog.func(f"{TR}._get_current_status")
-    run.analysed(gs.qual)
-    paths = paths_of(prog, gs)
-    k_bat, k_inv = truthy_key(f"self._battery.{FLAG}"), truthy_key(f"self._inverter.{FLAG}")
-    good = [p for p in paths if ret_text(p) != NW]
-    bad = first([p for p in good if not (p.fact(k_bat) is True and p.fact(k_inv) is True)])
-    run.check(bad is None and bool(good), "C16.SAFE", gs.qual, "WORKING/UNCERTAIN only if battery flag and inverter flag",
-              "a status other than NOT_WORKING can be returned although the battery's or the inverter's "
-              "last message was not proven healthy", node=gs.node, file=gs.file, path=wit(bad))
-    unknown = first([p for p in paths if ret_text(p) not in (NW, WORKING, UNCERTAIN)])
-    if unknown is not None:
-        raise AnalysisError(f"{gs.qual}: returns `{ret_text(unknown)}`, not a ComponentStatusEnum member")
-    k_blk = truthy_key("self._blocking_status.is_blocked()")
-    k_was_nw = eq_key("self._last_status", NW)
-    blocked = [p for p in paths if p.fact(k_blk) is True]
-    bad = first([p for p in blocked if ret_text(p) != UNCERTAIN])
-    run.check(bool(blocked) and bad is None, "C16.BLOCK", gs.qual, "blocked -> UNCERTAIN",
-              "a healthy but blocked battery is not reported as uncertain", node=gs.node, file=gs.file, path=wit(bad))
-    # WORKING means "not blocked": either is_blocked() was found false, or the block was cleared on this path
-    # (the recovery from NOT_WORKING, and only that, may clear it)
-    bad = first([p for p in paths if ret_text(p) == WORKING and p.fact(k_blk) is not False
-                 and not (p.fact(k_was_nw) is True and p.call_texts("self._blocking_status.unblock()"))])
-    run.check(bad is None, "C16.BLOCK", gs.qual, "WORKING only when not blocked (tested, or cleared on recovery)",
-              "WORKING is returned while a block from an earlier failed command may still be pending: the recovery from "
-              "NOT_WORKING does not clear it, so the next evaluation flips the battery to UNCERTAIN and a later "
-              "failure doubles a stale back-off", node=gs.node, file=gs.file, path=wit(bad))
 
 
 # ------------------------------------------------------------------------------ the select loop
@@ -339,18 +231,58 @@ def iteration_paths(ex: Exec, fn: FuncInfo, st: State, is_loop: Callable[[ast.AS
     return [p for p in paths if p.exit != "raise"], s, chain, entry
 
 
-def loop_paths(prog: Program, rn: FuncInfo) -> tuple[list[PathSum], list[ast.AST], list[ast.stmt]]:
-    """One iteration of the `async for selected in select(...)` body of `_run` (loop variable SELECTED), the
-    resolved arguments of `select(...)` and the compound statements enclosing the loop."""
-    ex = Exec(prog, rn, bool_attrs={FLAG})
-    names = [a.arg for a in ex.prepared(rn).args.args][1:]
-    st: State = ex.initial(dict(zip(names, ["STATUS_SENDER", "SET_POWER_RESULT_RECEIVER"])))
-    paths, loop, chain, entry = iteration_paths(ex, rn, st, _is_select_loop, "SELECTED", "select loop")
-    try:
-        sel_args = [ex._res(a, entry) for a in loop.iter.args]  # type: ignore[attr-defined]
-    except Unsupported as exc:
-        raise AnalysisError(f"{rn.qual}: cannot be interpreted path by path ({exc})") from exc
-    return paths, sel_args, chain
+
+class Loop:
+    """One iteration of the tracker's select loop, with every private helper of the class executed in line
+    (message handlers, validity predicates, timer handlers, status decision, change detection — whatever they
+    are called and however the code is cut into functions): the function that contains the loop is found by
+    its role, everything below it by being called."""
+
+    def __init__(self, prog: Program) -> None:
+        cls = prog.cls(TR)
+        holders = [m for m in cls.methods.values() if any(_is_select_loop(n) for n in ast.walk(m.node))]
+        if len(holders) != 1:
+            raise AnalysisError(f"{cls.qual}: expected exactly one method with a `select(...)` loop, found "
+                                f"{sorted(m.name for m in holders)}")
+        self.fn = fn = holders[0]
+        ex = Exec(prog, fn, bool_attrs={FLAG}, inline_all=True, max_depth=8)
+        names = [a.arg for a in fn.node.args.posonlyargs + fn.node.args.args][1:]
+        st: State = ex.initial(dict(zip(names, ["STATUS_SENDER", "SET_POWER_RESULT_RECEIVER"])))
+        self.paths, loop, self.chain, entry = iteration_paths(ex, fn, st, _is_select_loop, "SELECTED", "select loop")
+        try:
+            self.sel_args = [ex._res(a, entry) for a in loop.iter.args]  # type: ignore[attr-defined]
+        except Unsupported as exc:
+            raise AnalysisError(f"{fn.qual}: cannot be interpreted path by path ({exc})") from exc
+        if not self.paths:
+            raise AnalysisError(f"{fn.qual}: the select loop has no normal path")
+        blind = sorted({c for p in self.paths for c in ex.opaque_private_calls(p)})
+        if blind:
+            raise AnalysisError(f"{fn.qual}: cannot see through {blind} (not interpretable path by path)")
+        self.atoms = self.paths[0].state.atoms
+        self.functions = [fn] + list(ex.inlined.values())
+        self.sources = [source_of(a) for a in self.sel_args]
+        if None in self.sources or len(set(self.sources)) != len(self.sources):
+            bad = text(self.sel_args[self.sources.index(None)]) if None in self.sources else "select"
+            raise AnalysisError(f"{fn.qual}: cannot tell what `{bad}` selects from (expected the two data "
+                                "streams, their timers and the set-power results)")
+        for need in ("result",) + tuple(f"{k}:{s}" for k in ("data", "timer") for s in STREAMS):
+            if need not in self.sources:
+                raise AnalysisError(f"{fn.qual}: select() does not listen to {need}")
+
+    def side(self, source: str) -> list[PathSum]:
+        """The paths on which the event was found to come from `source`."""
+        k = selected_key(self.atoms, source)
+        return [p for p in self.paths if k is not None and p.fact(k) is True]
+
+
+_LOOPS: dict[int, Loop] = {}
+
+
+def loop_of(prog: Program) -> Loop:
+    if id(prog) not in _LOOPS:
+        _LOOPS.clear()
+        _LOOPS[id(prog)] = Loop(prog)
+    return _LOOPS[id(prog)]
 
 
 def source_of(x: ast.AST) -> str | None:
@@ -379,13 +311,6 @@ def selected_key(p_atoms: dict, source: str) -> tuple | None:
                 and len(a.ops[0].args) == 2 and text(a.ops[0].args[0]) == "SELECTED" and source_of(a.ops[0].args[1]) == source:
             return key
     return None
-
-
-DISPATCH = {  # event source -> the handler that must process its message (and no other event)
-    "data:self._battery": "_handle_status_battery",
-    "data:self._inverter": "_handle_status_inverter",
-    "result": "_handle_status_set_power_result",
-}
 
 
 def _kept_alive(chain: list[ast.stmt]) -> bool:
@@ -428,107 +353,18 @@ def _leaves(w: ast.While) -> bool:
     return scan(w.body, True)
 
 
-def _is_handler_call(c: ast.Call) -> bool:
-    return isinstance(c.func, ast.Attribute) and u(c.func.value) == "self" and c.func.attr.startswith("_handle_status_")
+
+def _bool_const(v: ast.AST | None) -> bool | None:
+    return v.value if isinstance(v, ast.Constant) and isinstance(v.value, bool) else None
 
 
-def check_timer(run: Run, prog: Program) -> None:
-    # message handlers: every path records the message timestamp and restarts the stream's timer
-    for hname, (stream, _need) in REQUIRED.items():
-        fn = prog.func(f"{TR}.{hname}")
-        paths = paths_of(prog, fn, ["MSG"])
-        bad = first([p for p in paths if not (
-            p.last_write(f"{stream}.last_msg_timestamp") is not None
-            and text(p.last_write(f"{stream}.last_msg_timestamp")) == "MSG.timestamp"
-            and p.call_texts(f"{stream}.data_recv_timer.reset()"))])
-        run.check(bad is None, "C16.TIMER", fn.qual, "record the message timestamp and reset the stream's timer",
-                  f"a message from {stream} does not record its timestamp / restart the data-age timer",
-                  node=fn.node, file=fn.file, path=wit(bad))
-    # timer handlers: afterwards the stream's own flag is false on every path, the other flag untouched
-    for hname, stream in (("_handle_status_battery_timer", "self._battery"), ("_handle_status_inverter_timer", "self._inverter")):
-        fn = prog.func(f"{TR}.{hname}")
-        run.analysed(fn.qual)
-        paths = paths_of(prog, fn)
-        flag = f"{stream}.{FLAG}"
-
-        def cleared(p: PathSum, flag: str = flag) -> bool:
-            w = p.last_write(flag)
-            if w is not None:
-                return isinstance(w, ast.Constant) and w.value is False
-            return p.fact(truthy_key(flag)) is False
-        others = [p for p in paths if p.writes_where(lambda t, flag=flag: t.endswith("." + FLAG) and t != flag)]
-        bad = first([p for p in paths if not cleared(p)] + others)
-        clears = any(p.last_write(flag) is not None for p in paths)
-        run.check(bad is None and clears, "C16.TIMER", fn.qual, f"{stream}.last_msg_correct = False",
-                  f"the data-age timer of {stream} does not clear that stream's health flag", node=fn.node, file=fn.file,
-                  path=wit(bad))
-    rn = prog.func(f"{TR}._run")
-    run.analysed(rn.qual)
-    paths, sel_args, chain = loop_paths(prog, rn)
-    atoms = paths[0].state.atoms if paths else {}
-    sources = [source_of(a) for a in sel_args]
-    if None in sources or len(set(sources)) != len(sources):
-        raise AnalysisError(f"{rn.qual}: cannot tell what `{text(sel_args[sources.index(None)]) if None in sources else 'select'}` "
-                            "selects from (expected the two data streams, their timers and the set-power results)")
-    # every message source is dispatched to its own handler, with the selected message, and only there
-    for source, hname in DISPATCH.items():
-        if source not in sources:
-            raise AnalysisError(f"{rn.qual}: select() does not listen to {source}")
-        k_src = selected_key(atoms, source)
-        want = f"self.{hname}(SELECTED.message)"
-        side = [p for p in paths if k_src is not None and p.fact(k_src) is True]
-        bad = first([p for p in side if not p.call_texts(want)] +
-                    [p for p in paths for _i, c in p.calls(lambda c, h=hname: isinstance(c.func, ast.Attribute) and c.func.attr == h)
-                     if text(c) != want or k_src is None or p.fact(k_src) is not True])
-        run.check(bool(side) and bad is None, "C16.TIMER", rn.qual, f"{source} -> {hname}(selected.message)",
-                  f"an event selected from {source} is not (or not only such an event is) processed by {hname}: "
-                  "the stream's health flag / back-off state no longer reflects that stream's latest message",
-                  node=rn.node, file=rn.file, path=wit(bad), instance=f"{rn.qual}: dispatch of {source}")
-    n_branch = 0
-    for stream in ("self._battery", "self._inverter"):
-        k_sel = truthy_key(f"selected_from(SELECTED, {stream}.data_recv_timer)")
-        k_fresh = lt_key(f"NOW - {stream}.last_msg_timestamp", "self._max_data_age")
-        side = [p for p in paths if p.fact(k_sel) is True]
-        if not side:
-            continue
-        n_branch += 1
-        want_handler = f"self._handle_status_{stream.split('._')[-1]}_timer()"
-        detail = "no freshness test on the timer branch"
-        bad = first([p for p in side if p.fact(k_fresh) is None])
-        foreign = first([p for p in side if p.atoms_where(
-            lambda a, k=k_fresh: a.key != k and "last_msg_timestamp" in " ".join(text(o) for o in a.ops))])
-        if foreign is not None:
-            a = foreign.atoms_where(lambda a, k=k_fresh: a.key != k and "last_msg_timestamp" in " ".join(text(o) for o in a.ops))[0][0]
-            bad = foreign
-            detail = (f"the freshness test of {stream}'s timer reads `{a.show()}`: it must compare the age of "
-                      f"*{stream}'s* last message with max_data_age (otherwise a silent {stream.split('_')[-1]} "
-                      "is never marked stale while the other stream keeps sending)")
-        if bad is None:
-            bad = first([p for p in side if p.fact(k_fresh) is False and not p.call_texts(want_handler)])
-            detail = f"a stale {stream} does not lead to {want_handler[5:]}"
-        if bad is None:
-            bad = first([p for p in paths if p.call_texts(want_handler)
-                         and not (p.fact(k_sel) is True and p.fact(k_fresh) is False)])
-            detail = f"{want_handler[5:]} clears the flag although {stream}'s data timer did not fire on stale data"
-        run.check(bad is None, "C16.TIMER", rn.qual, f"timer branch of {stream}", detail, node=rn.node, file=rn.file,
-                  path=wit(bad))
-    if n_branch != 2:
-        raise AnalysisError(f"{rn.qual}: expected two data-timer branches, found {n_branch}")
-    # every state-changing branch reaches the change detection
-    handlers = sorted({t for p in paths for _i, c in p.calls(_is_handler_call) for t in [text(c)]})
-    if not handlers:
-        raise AnalysisError(f"{rn.qual}: no `_handle_status_*` call in the select loop")
-    for h in handlers:
-        bad = first([p for p in paths if p.call_texts(h)
-                     and not any(j > p.call_texts(h)[-1] for j in p.call_texts(DETECT))])
-        run.check(bad is None, "C16.TIMER", rn.qual, h,
-                  "a branch that may change the health flags returns to the select loop without "
-                  "re-evaluating the status", node=rn.node, file=rn.file, path=wit(bad))
-    # the tracker stays alive: the select loop sits in a `try` that absorbs Exception inside an endless loop
-    # that nothing leaves
-    run.check(_kept_alive(chain), "C16.TIMER", rn.qual, "select loop restarted after an unexpected error",
-              "status tracking can end: the select loop is not (re)entered by an endless loop whose body absorbs "
-              "unexpected errors", node=rn.node, file=rn.file)
+def flag_at(p: PathSum, flag: str, idx: int | None = None) -> bool | None:
+    """What is known about a health flag at event `idx` of the path (None: at its end): the constant last
+    written before that point, else the outcome of testing the (unwritten) flag anywhere on the path."""
+    w = [v for i, v in p.writes(flag) if idx is None or i < idx]
+    if w:
+        return _bool_const(w[-1])
+    return p.fact(truthy_key(flag))
 
 
 def _is_status_send(c: ast.Call) -> bool:
@@ -536,20 +372,177 @@ def _is_status_send(c: ast.Call) -> bool:
         "STATUS_SENDER", "self._status_sender")
 
 
+def stores(p: PathSum) -> list[tuple[int, str]]:
+    return [(i, text(v)) for i, v in p.writes("self._last_status")]
+
+
+def status_events(p: PathSum) -> list[int]:
+    """Positions at which the path (re-)evaluates the status: a comparison of `_last_status` with a status
+    value, or a store of the status."""
+    out = [i for i, _v in stores(p)]
+    for i, e in enumerate(p.events):
+        if e[0] == "cond" and e[1][0] in ("eq", "is"):
+            ops = [text(o) for o in p.state.atoms[e[1]].ops]
+            if "self._last_status" in ops and any(o in (NW, WORKING, UNCERTAIN) for o in ops):
+                out.append(i)
+    return sorted(out)
+
+
+def check_safe(run: Run, prog: Program) -> None:  # noqa: C901
+    cls = prog.cls(TR)
+    # frozen sets of operational states
+    for name, want in VALID_SETS.items():
+        node = cls.class_assigns.get(name)
+        got = {u(e) for e in node.elts} if isinstance(node, ast.Set) else None
+        run.check(got == want, "C16.SAFE", cls.qual, f"{name} = {sorted(got) if got else got}",
+                  f"the set of states counted as operational changed from the documented {sorted(want)} "
+                  f"to {sorted(got) if got else got}", node=node or cls.node, file=cls.module.rel)
+    lp = loop_of(prog)
+    rn = lp.fn
+    for f in lp.functions:
+        run.analysed(f.qual)
+    # a data message makes its stream's flag true only if every disqualifying fact was tested on that very
+    # message with the outcome "does not hold"; the flag is (re)written on every path that handles the message
+    for stream, facts in FACTS.items():
+        side = lp.side(f"data:{stream}")
+        flag = f"{stream}.{FLAG}"
+        unwritten = first([p for p in side if p.last_write(flag) is None])
+        can_hold = any(_bool_const(p.last_write(flag)) is True for p in side)
+        run.check(bool(side) and unwritten is None and can_hold, "C16.SAFE", rn.qual,
+                  f"{flag} := verdict on every {stream.split('._')[-1]} message",
+                  f"a message from {stream} does not (always) renew that stream's health flag, or the flag can never "
+                  "become true", node=rn.node, file=rn.file, path=wit(unwritten),
+                  instance=f"{stream}: flag renewed by every message")
+        for label, match, field in facts:
+            def excluded(p: PathSum, match: Callable[[Atom], bool | None] = match) -> bool:
+                got = [v == match(a) for a, v in p.atoms_where(lambda a: match(a) is not None)]
+                return bool(got) and not any(got)
+            healthy = [p for p in side if _bool_const(p.last_write(flag)) is not False and p.last_write(flag) is not None]
+            bad = first([p for p in healthy if not excluded(p)])
+            detail = ""
+            if bad is not None:
+                near = [a for a, _v in bad.atoms_where(lambda a, field=field: f"{MSG}.{field}" in " ".join(text(o) for o in a.ops))]
+                detail = (f" (the condition on the message's {field} reads `{near[0].show()}`, which does not decide it)"
+                          if near else f" (the message's {field} is not examined on that path)")
+            run.check(bad is None, "C16.SAFE", rn.qual, f"{flag} true => no {label}",
+                      f"with the disqualifying fact `{label}` true or untested, {flag} can still become true: the "
+                      f"component is reported healthy on that path{detail}", node=rn.node, file=rn.file, path=wit(bad),
+                      instance=f"{stream}: {label} => flag False on every path")
+    # a status other than NOT_WORKING is stored (and hence reported) only while both flags are known true
+    reported = [(p, i, v) for p in lp.paths for i, v in stores(p)]
+    odd = first([v for _p, _i, v in reported if v not in (NW, WORKING, UNCERTAIN)])
+    if odd is not None:
+        raise AnalysisError(f"{rn.qual}: `{odd}` is stored as the last status, not a ComponentStatusEnum member")
+    bad = first([p for p, i, v in reported if v != NW
+                 and not (flag_at(p, f"self._battery.{FLAG}", i) is True and flag_at(p, f"self._inverter.{FLAG}", i) is True)])
+    run.check(bad is None and {v for _p, _i, v in reported} == {NW, WORKING, UNCERTAIN}, "C16.SAFE", rn.qual,
+              "WORKING/UNCERTAIN only if battery flag and inverter flag",
+              "a status other than NOT_WORKING can become the battery's status although the battery's or the inverter's "
+              "last message was not proven healthy", node=rn.node, file=rn.file, path=wit(bad))
+    # a blocked healthy battery is UNCERTAIN; WORKING means "not blocked"
+    k_blk = truthy_key("self._blocking_status.is_blocked()")
+    k_was_nw = eq_key("self._last_status", NW)
+    blocked = [(p, v) for p, _i, v in reported if p.fact(k_blk) is True]
+    bad = first([p for p, v in blocked if v != UNCERTAIN])
+    run.check(bool(blocked) and bad is None, "C16.BLOCK", rn.qual, "blocked -> UNCERTAIN",
+              "a healthy but blocked battery is not reported as uncertain", node=rn.node, file=rn.file, path=wit(bad))
+    bad = first([p for p, i, v in reported if v == WORKING and p.fact(k_blk) is not False and not (
+        p.fact(k_was_nw) is True and any(j < i for j in p.call_texts("self._blocking_status.unblock()")))])
+    run.check(bad is None, "C16.BLOCK", rn.qual, "WORKING only when not blocked (tested, or cleared on recovery)",
+              "WORKING becomes the status while a block from an earlier failed command may still be pending: the recovery "
+              "from NOT_WORKING does not clear it, so the next evaluation flips the battery to UNCERTAIN and a later "
+              "failure doubles a stale back-off", node=rn.node, file=rn.file, path=wit(bad))
+
+
+def check_timer(run: Run, prog: Program) -> None:  # noqa: C901
+    lp = loop_of(prog)
+    rn = lp.fn
+    # a data message records its timestamp and restarts its stream's timer — on every path, and only there
+    for stream in STREAMS:
+        side = lp.side(f"data:{stream}")
+        ts = f"{stream}.last_msg_timestamp"
+        bad = first([p for p in side if not (
+            p.last_write(ts) is not None and text(p.last_write(ts)) == f"{MSG}.timestamp"
+            and p.call_texts(f"{stream}.data_recv_timer.reset()"))])
+        run.check(bool(side) and bad is None, "C16.TIMER", rn.qual,
+                  f"{stream}: record the message timestamp and reset the stream's timer",
+                  f"a message from {stream} does not record its timestamp / restart the data-age timer",
+                  node=rn.node, file=rn.file, path=wit(bad), instance=f"{stream}: timestamp recorded, timer reset")
+        alien = first([p for p in lp.paths if p not in side and (
+            p.writes(ts) or any(_bool_const(v) is not False for _i, v in p.writes(f"{stream}.{FLAG}")))])
+        run.check(alien is None, "C16.TIMER", rn.qual, f"data:{stream} -> only that stream's message renews its flag / timestamp",
+                  f"an event that was not selected from {stream}'s data stream sets that stream's timestamp or makes its "
+                  "health flag true: the flag no longer reflects that stream's latest message",
+                  node=rn.node, file=rn.file, path=wit(alien), instance=f"{rn.qual}: dispatch of data:{stream}")
+    side = lp.side("result")
+    alien = first([p for p in lp.paths if p not in side and p.call_texts("self._blocking_status.block()")])
+    run.check(bool(side) and alien is None, "C16.TIMER", rn.qual, "result -> only a set-power result blocks",
+              "block() is reached by an event that is not a set-power result", node=rn.node, file=rn.file, path=wit(alien),
+              instance=f"{rn.qual}: dispatch of result")
+    # timer events: freshness judged on the stream's own timestamp; stale => own flag false, other flag untouched;
+    # late (fresh) event => nothing changes
+    for stream in STREAMS:
+        other = [s for s in STREAMS if s != stream][0]
+        k_fresh = lt_key(f"NOW - {stream}.last_msg_timestamp", "self._max_data_age")
+        side = lp.side(f"timer:{stream}")
+        if not side:
+            raise AnalysisError(f"{rn.qual}: no branch handles the data timer of {stream}")
+
+        def foreign(p: PathSum, k: tuple = k_fresh) -> list[Atom]:
+            return [a for a, _v in p.atoms_where(
+                lambda a: a.key != k and a.kind == "lt0" and "last_msg_timestamp" in " ".join(text(o) for o in a.ops))]
+        detail = "no freshness test on the timer branch"
+        bad = first([p for p in side if p.fact(k_fresh) is None])
+        wrong = first([p for p in side if foreign(p)])
+        if wrong is not None:
+            bad = wrong
+            detail = (f"the freshness test of {stream}'s timer reads `{foreign(wrong)[0].show()}`: it must compare the age of "
+                      f"*{stream}'s* last message with max_data_age (otherwise a silent {stream.split('_')[-1]} "
+                      "is never marked stale while the other stream keeps sending)")
+        run.check(bad is None, "C16.TIMER", rn.qual, f"timer branch of {stream}", detail, node=rn.node, file=rn.file,
+                  path=wit(bad))
+        stale = [p for p in side if p.fact(k_fresh) is False]
+        bad = first([p for p in stale if flag_at(p, f"{stream}.{FLAG}") is not False or p.writes(f"{other}.{FLAG}")] +
+                    [p for p in side if p.fact(k_fresh) is True and p.writes_where(lambda t: t.endswith("." + FLAG))])
+        run.check(bool(stale) and bad is None, "C16.TIMER", rn.qual, f"{stream}.last_msg_correct = False",
+                  f"the data-age timer of {stream} does not clear that stream's health flag when its data is stale (or "
+                  "touches a flag otherwise)", node=rn.node, file=rn.file, path=wit(bad))
+    # every path that changes the state re-evaluates the status afterwards
+    def changes(p: PathSum) -> list[int]:
+        out = [i for i, _t, _v in p.writes_where(lambda t: t.endswith("." + FLAG))]
+        se = status_events(p)
+        first_eval = se[0] if se else len(p.events)
+        out += [i for t in ("block", "unblock") for i in p.call_texts(f"self._blocking_status.{t}()") if i < first_eval]
+        return out
+    for source in lp.sources:
+        side = lp.side(source)
+        bad = first([p for p in side if changes(p) and not any(j > max(changes(p)) for j in status_events(p))])
+        run.check(bad is None, "C16.TIMER", rn.qual, f"{source}: state change -> status re-evaluated",
+                  "a branch that may change the health flags or the block returns to the select loop without "
+                  "re-evaluating the status", node=rn.node, file=rn.file, path=wit(bad),
+                  instance=f"{rn.qual}: {source} reaches the status evaluation")
+    # the tracker stays alive: the select loop sits in a `try` that absorbs Exception inside an endless loop
+    # that nothing leaves
+    run.check(_kept_alive(lp.chain), "C16.TIMER", rn.qual, "select loop restarted after an unexpected error",
+              "status tracking can end: the select loop is not (re)entered by an endless loop whose body absorbs "
+              "unexpected errors", node=rn.node, file=rn.file)
+
+
 def check_change(run: Run, prog: Program) -> None:
-    rn = prog.func(f"{TR}._run")
-    paths, _sel_args, _chain = loop_paths(prog, rn)
+    lp = loop_of(prog)
+    rn = lp.fn
+    paths = lp.paths
     has_send = any(p.calls(_is_status_send) for p in paths)
-    k_none = is_key(DETECT, "None")
 
     def send_ok(p: PathSum) -> bool:
-        sends = p.calls(_is_status_send)
-        if not sends:
-            return p.fact(k_none) is not False  # a detected change must be sent
-        det = p.call_texts(DETECT)
-        return p.fact(k_none) is False and len(det) == 1 and all(i > det[0] for i, _c in sends)
+        sends, st = p.calls(_is_status_send), stores(p)
+        if len(sends) > 1 or len(st) > 1:
+            return False
+        if bool(sends) != bool(st):
+            return False  # sent without a stored change / a stored change that is not sent
+        return not sends or st[0][0] < sends[0][0]
     bad = first([p for p in paths if not send_ok(p)])
-    run.check(bad is None and has_send, "C16.CHANGE", rn.qual, "send iff new_status is not None",
+    run.check(bad is None and has_send, "C16.CHANGE", rn.qual, "send iff the status changed",
               "a notification can be sent although the status did not change (or a detected change is not sent)",
               node=rn.node, file=rn.file, path=wit(bad))
     fields = [s.target.id for s in prog.cls(f"{CSMOD}:ComponentStatus").node.body
@@ -557,34 +550,30 @@ def check_change(run: Run, prog: Program) -> None:
     if fields[:2] != ["component_id", "value"]:
         raise AnalysisError(f"ComponentStatus fields changed: {fields}")
 
-    def carries(c: ast.Call) -> bool:
+    def carries(p: PathSum, c: ast.Call) -> bool:
         if len(c.args) != 1 or c.keywords or not isinstance(c.args[0], ast.Call) or u(c.args[0].func) != "ComponentStatus":
             return False
         got = {k: text(v) for k, v in positional(c.args[0], fields).items()}
-        return set(got) == {"component_id", "value"} and got["value"] == DETECT and got["component_id"] in (
-            "self.battery_id", "self._battery.component_id")
-    bad = first([p for p in paths if not all(carries(c) for _i, c in p.calls(_is_status_send))])
-    run.check(bad is None and has_send, "C16.CHANGE", rn.qual, "sends ComponentStatus(battery_id, <detected change>)",
+        return set(got) == {"component_id", "value"} and [v for _i, v in stores(p)] == [got["value"]] \
+            and got["component_id"] in ("self.battery_id", "self._battery.component_id")
+    bad = first([p for p in paths if not all(carries(p, c) for _i, c in p.calls(_is_status_send))])
+    run.check(bad is None and has_send, "C16.CHANGE", rn.qual, "sends ComponentStatus(battery_id, <the stored new status>)",
               "the notification does not carry the status found by the change detection", node=rn.node, file=rn.file,
               path=wit(bad))
-    gn = prog.func(f"{TR}._get_new_status_if_changed")
-    run.analysed(gn.qual)
-    paths = paths_of(prog, gn)
-    k_same = eq_key("self._last_status", CURRENT)
 
-    def detect_ok(p: PathSum) -> bool:
-        stores = p.writes("self._last_status")
-        if len(p.call_texts(CURRENT)) != 1 or p.fact(k_same) is None:
-            return False
-        if p.fact(k_same):  # unchanged: nothing stored, None returned
-            return not stores and p.const() is None
-        cond_at = [i for i, e in enumerate(p.events) if e[0] == "cond" and e[1] == k_same][0]
-        return bool(stores) and all(i > cond_at and text(v) == CURRENT for i, v in stores) and ret_text(p) == CURRENT
-    bad = first([p for p in paths if not detect_ok(p)])
-    run.check(bad is None and {p.fact(k_same) for p in paths} == {True, False}, "C16.CHANGE", gn.qual,
-              "changed -> store and return; unchanged -> None",
-              "the change detector does not return a status exactly when it differs from the stored one "
-              "(after storing it)", node=gn.node, file=gn.file, path=wit(bad))
+    def store_ok(p: PathSum) -> bool:
+        for i, v in stores(p):
+            k = eq_key("self._last_status", v)
+            found = [j for j, e in enumerate(p.events) if e[0] == "cond" and e[1] == k]
+            if p.fact(k) is not False or not found or min(found) > i:
+                return False
+        return True
+    bad = first([p for p in paths if not store_ok(p)])
+    unchanged = [p for p in paths if not stores(p) and status_events(p)]
+    run.check(bad is None and bool(unchanged) and any(stores(p) for p in paths), "C16.CHANGE", rn.qual,
+              "changed -> store; unchanged -> nothing",
+              "the status is stored (and reported) without having been found different from the stored one",
+              node=rn.node, file=rn.file, path=wit(bad))
 
 
 def _is_zero_duration(e: ast.AST | None) -> bool:
@@ -657,22 +646,31 @@ def check_block(run: Run, prog: Program) -> None:  # noqa: C901
     run.check(bad is None and {p.const() for p in paths} == {True, False}, "C16.BLOCK", ib.qual,
               "blocked iff blocked_until in the future", "is_blocked is not "
               "`blocked_until is set and in the future`", node=ib.node, file=ib.file, path=wit(bad))
-    # tracker: unblock on every success, block on failure unless NOT_WORKING
-    hr = prog.func(f"{TR}._handle_status_set_power_result")
-    run.analysed(hr.qual)
-    paths = paths_of(prog, hr, ["RESULT"])
-    k_succ = in_key("self.battery_id", "RESULT.succeeded")
-    k_fail = in_key("self.battery_id", "RESULT.failed")
+    # tracker: a set-power result unblocks on every success and blocks on failure unless NOT_WORKING
+    # (on the paths of the select loop that handle a set-power result; its message is SELECTED.message)
+    lp = loop_of(prog)
+    hr = lp.fn
+    paths = lp.side("result")
+    k_succ = in_key("self.battery_id", f"{MSG}.succeeded")
+    k_fail = in_key("self.battery_id", f"{MSG}.failed")
     k_nw = eq_key("self._last_status", NW)
+
+    def handled_before_status(p: PathSum, call: str) -> list[int]:
+        se = status_events(p)
+        # the comparison with NOT_WORKING that guards block() belongs to the handling, not to the re-evaluation
+        se = [i for i in se if not (p.events[i][0] == "cond" and p.events[i][1] == k_nw and p.call_texts(call)
+                                    and i < p.call_texts(call)[0])]
+        return [i for i in p.call_texts(call) if not se or i < se[0]]
     succ = [p for p in paths if p.fact(k_succ) is True]
-    bad = first([p for p in succ if not p.call_texts("self._blocking_status.unblock()")])
+    bad = first([p for p in succ if not handled_before_status(p, "self._blocking_status.unblock()")])
     run.check(bool(succ) and bad is None, "C16.BLOCK", hr.qual, "succeeded -> unblock() unconditionally",
               "a successful power command does not always reset the back-off (e.g. only when the status "
               "is UNCERTAIN): after the block expired a later failure doubles instead of restarting at "
               "the minimum", node=hr.node, file=hr.file, path=wit(bad))
     blocks = [p for p in paths if p.call_texts("self._blocking_status.block()")]
     bad = first([p for p in blocks if not (p.fact(k_fail) is True and p.fact(k_nw) is False)
-                 or len(p.call_texts("self._blocking_status.block()")) != 1] +
+                 or len(p.call_texts("self._blocking_status.block()")) != 1
+                 or [i for i, e in enumerate(p.events) if e[0] == "cond" and e[1] == k_nw][0] > p.call_texts("self._blocking_status.block()")[0]] +
                 [p for p in paths if p.fact(k_fail) is True and p.fact(k_nw) is False and p.fact(k_succ) is not True
                  and p not in blocks])
     run.check(bool(blocks) and bad is None, "C16.BLOCK", hr.qual, "failed and not NOT_WORKING -> block()",
